@@ -295,16 +295,23 @@ def hybrid(cfg=None, reopen_ok=False):
     if reopen_ok:
         body_choices.append(reopen)
     body = st.lists(st.one_of(*body_choices), min_size=0, max_size=8)
-    def assemble(bf, f, e, p, h, b, consistent):
+    x86file = add_fp(length=st.sampled_from([3000, 2048, 10000]), ck=st.just(0), ns=st.sampled_from([7, 1]), d=st.just(0), file=st.just(False))
+    x86boot = add_boot.map(lambda o: dict(o, j=0, media=0, plat=0, efi=False, load=None))
+    x86_part = st.one_of(st.just([]), st.just([]), st.tuples(x86file, x86boot).map(list))
+
+    def assemble(bf, f, e, p, h, b, consistent, x86=()):
+        if x86:
+            # a further entry for the x86 platform with an image of its own (the hybrid boot sector must keep loading the initial entry's file)
+            e = e + [x86[0], dict(x86[1], b=len(e) // 2 + 1)]
         if e and consistent == 'shared':
             # the first EFI entry boots the very file the initial entry boots (one image, two entries)
             e = [e[0], dict(e[1], b=0)] + e[2:]
         if consistent:
             # efi/mac flags that match the number of 0xef entries (the mismatch is the known finding hybrid-efi-count)
-            n = len(e) // 2
+            n = len(e) // 2 - (1 if x86 else 0)
             h = dict(h, efi=(True if n >= 1 else None), mac=(n == 2), pt=(None if n else h.get('pt')))
         return [bf, f] + e + p + [h] + b
-    return program(c, st.builds(assemble, bootfile, first, efi_part, pre, add_hybrid, body, st.sampled_from([True, True, True, 'shared', False])))
+    return program(c, st.builds(assemble, bootfile, first, efi_part, pre, add_hybrid, body, st.sampled_from([True, True, True, 'shared', False]), x86_part))
 
 
 _old_any_profile = any_profile
